@@ -9,8 +9,10 @@ drv_serve ops (one line each):
       bg:<t>   stop:<t>          thread t becomes / stops being a background serving thread
       poll:<t>:<d>:<tmax>        thread t entered conn.poll_all(d); its Timeout's tmax
       peer:<seq>:<0|1>:<val>     the peer answered seq (reply / exception) with payload val
+      dup:<seq>:<0|1>:<val>      the peer repeated the answer it had given to seq
       tick:<d>                   virtual time advanced by d
       eof                        the peer closed the stream
+      note:<t>:<what>…           an observation outside the model's alphabet (ignored)
       run:<t>:<label>[:<obs>…]   thread t executed the line `label` with the observed result
       chk:<t>:<R|->              the harness saw client t blocked in poll()/on the condition, its result ready or not
     answer: `ok res=… reg=… dc=… now=… bl=…`   or   `reject <index> <token> model=<label[:obs]> pc=<pc>`
@@ -140,10 +142,19 @@ def feed (a : Acc) (tok : String) : Except String Acc :=
       | some s' => .ok { a with s := s' }
       | none => .error "peer-not-outstanding"
     | _, _, _ => .error "bad-op"
+  | "note" :: _ => .ok a      -- a harness observation that is not an action of the model (e.g. add_callback's readiness test)
   | ["eof"] =>
     match step a.s .peerEof with
     | some s' => .ok { a with s := s' }
     | none => .error "eof-twice"
+  | ["dup", q, e, v] =>
+    match pNat q, pNat e, pNat v with
+    | some q, some e, some v =>
+      if e > 1 then .error "bad-op" else
+      match step a.s (.peerDup q (e == 1) v) with
+      | some s' => .ok { a with s := s' }
+      | none => .error "dup-not-the-answer-given"
+    | _, _, _ => .error "bad-op"
   | ["tick", d] =>
     match pNat d with
     | some d => match step a.s (.tick d) with
